@@ -109,9 +109,9 @@ def check(run):
     prog.normalise_module(mi, only=('lookup_element', 'lookup_isotope'))
     prog.normalise_module(mi, only=('_build_element_index', '_build_isotope_index'), propagate=False)
     run.use_file(PYX)
-    run.use_file(PYX[:-1] + 'd')
+    run.use_file(PYX[:-3] + 'pxd')
     run.use_file(LINE)
-    run.use_file(LINE[:-1] + 'd')
+    run.use_file(LINE[:-3] + 'pxd')
     run.explanation = (
         'Decides C19 whole for the registry as written in the source: all module-level Element(...)/Isotope(...) constructor '
         'calls are folded to records (84 elements, 290 isotopes today); name/symbol uniqueness, atomic numbers against an '
@@ -493,6 +493,22 @@ def check(run):
                     eq_fields = _cmp_fields(e, ast.And, ast.Eq)
                 if code == 3:
                     ne_fields = _cmp_fields(e, ast.Or, ast.NotEq)
+        if eq_fields is None and ne_fields is None:
+            # one conjunction held in a local and returned as 'equal if op == 2 else not equal' (either arm order)
+            locs = {norm(st_.targets[0]): st_.value for st_ in ast.walk(rc) if isinstance(st_, ast.Assign) and len(st_.targets) == 1 and isinstance(st_.targets[0], ast.Name)}
+            for r_ in ast.walk(rc):
+                if isinstance(r_, ast.Return) and isinstance(r_.value, ast.IfExp) and isinstance(r_.value.test, ast.Compare) \
+                        and norm(r_.value.test.left) == rc.args.args[2].arg:
+                    code_ = const_fold(r_.value.test.comparators[0])
+                    a_, b_ = r_.value.body, r_.value.orelse
+                    if code_ == 3 and isinstance(r_.value.test.ops[0], ast.Eq):
+                        a_, b_ = b_, a_
+                    elif not (code_ == 2 and isinstance(r_.value.test.ops[0], ast.Eq)) and not (code_ == 3 and isinstance(r_.value.test.ops[0], ast.NotEq)):
+                        continue
+                    if isinstance(b_, ast.UnaryOp) and isinstance(b_.op, ast.Not) and norm(b_.operand) == norm(a_):
+                        expr_ = locs[a_.id] if isinstance(a_, ast.Name) and a_.id in locs else a_
+                        eq_fields = _cmp_fields(expr_, ast.And, ast.Eq)
+                        ne_fields = list(eq_fields) if eq_fields is not None else None
         run.subject('C19-R4')
         if eq_fields is None or ne_fields is None:
             run.undecided('C19-R4', ci.name + '.__richcmp__', '== / != are not a conjunction / disjunction of per-field comparisons')
@@ -539,6 +555,35 @@ def check(run):
             else:
                 run.fail('C19-R4', Kc + 'field-mutable|' + f, path, h.lineno,
                          "%s.%s is hashed but declared '%s': the key can change while the object is in a dictionary" % (ci.name, f, fld[1]))
+    # the declared C type of the integer fields holds every value the registry stores in them
+    run.describe('C19-R5', 'declared C types of atomic_number / mass_number hold every value of the registry; atomic_weight is a double')
+    LIMITS = {'char': 127, 'signed char': 127, 'unsigned char': 255, 'short': 32767, 'unsigned short': 65535, 'int': 2 ** 31 - 1, 'unsigned int': 2 ** 32 - 1,
+              'long': 2 ** 31 - 1, 'unsigned long': 2 ** 32 - 1, 'long long': 2 ** 63 - 1, 'Py_ssize_t': 2 ** 31 - 1, 'size_t': 2 ** 32 - 1, 'object': None}
+    for cq, recs in ((MOD + '.Element', list(elements.values())), (MOD + '.Isotope', list(isotopes.values()))):
+        ci = prog.cls(cq)
+        for f in ('atomic_number', 'mass_number', 'atomic_weight'):
+            fld = prog.field(ci, f)
+            vals = [r[f] for r in recs if f in r and isinstance(r[f], (int, float))]
+            if fld is None or not vals:
+                continue
+            run.subject('C19-R5')
+            t = str(fld[0])
+            if f == 'atomic_weight':
+                if t in ('double', 'object', 'long double'):
+                    run.ok('C19-R5', '%s.%s' % (ci.name, f), t, sample=False)
+                else:
+                    run.fail('C19-R5', '%s|%s|type|%s' % (MOD, ci.name, f), PYX[:-3] + 'pxd', 1,
+                             "%s.%s is declared '%s': the atomic weights are not integers / lose precision, so |weight - mass number| < 0.1 u no "
+                             "longer holds for the stored value" % (ci.name, f, t))
+            elif t not in LIMITS:
+                run.undecided('C19-R5', '%s.%s' % (ci.name, f), 'declared type %s' % t)
+            elif LIMITS[t] is None or max(vals) <= LIMITS[t]:
+                run.ok('C19-R5', '%s.%s' % (ci.name, f), '%s holds the largest value %d' % (t, max(vals)), sample=False)
+            else:
+                run.fail('C19-R5', '%s|%s|type|%s' % (MOD, ci.name, f), PYX[:-3] + 'pxd', 1,
+                         "%s.%s is declared '%s' (largest value %d) but the registry stores values up to %d: they wrap around on assignment, so "
+                         "the mass number read back is negative / smaller than the atomic number" % (ci.name, f, t, LIMITS[t], max(vals)))
+    run.floor('C19-R5', 3)
     run.floor('C19-R1', 400)
     run.floor('C19-R2', 300)
     run.floor('C19-R3', 1000)
